@@ -534,6 +534,12 @@ def canon(v):
     return v
 
 
+def crepr(v) -> str:
+    """order-insensitive canonical text of an AST value (dict key order is not part of the value)"""
+    import json
+    return json.dumps(canon(v), sort_keys=True, default=repr, ensure_ascii=True)
+
+
 def ref_run(g, text, start=None, settings=None, max_steps=200000, action=None):
     """-> (outcome, ref) with outcome ('ok', end, canon(value)) | ('fail',) | ('budget',)"""
     r = Ref(g, text, settings=settings, max_steps=max_steps, action=action)
